@@ -658,6 +658,13 @@ def corpus_modules(tier):
         out.append([mod("M", [("E", {"k": "enum", "items": odd}),
                               ("T", {"k": "seq", "fields": [field("e", {"k": "ref", "name": "E"}, dflt=v)]})])])
     out.append([mod("M", [("T", {"k": "seq", "fields": [field("e" + str(i), {"k": "enum", "items": odd}, dflt=v) for i, v in enumerate(odd)]})])])
+    # named numbers together with a DEFAULT (constants must have the component's plain type)
+    out.append([mod("M", [("T", {"k": "seq", "fields": [
+        field("kind", {"k": "int", "lo": 0, "hi": 255, "named": [["apple", 1], ["pear", 2]]}, dflt="2"),
+        field("wide", {"k": "int", "lo": -5, "hi": 300, "named": [["low", -5], ["high", 300]]}, dflt="-5"),
+        field("plain", {"k": "int", "lo": 0, "hi": 7, "named": [["one", 1]]})]})])])
+    out.append([mod("M", [("T", {"k": "seq", "ext": 0, "fields": [
+        field("a", BOOL), field("kind", {"k": "int", "lo": 0, "hi": 255, "named": [["apple", 1], ["pear", 2]]}, dflt="2")]})])])
     # DEFAULT components after the extension marker, of every literal kind
     out.append([mod("M", [("E", {"k": "enum", "items": ["abc", "def-g"]}),
                           ("T", {"k": "seq", "ext": 0, "fields": [field("a", BOOL), field("i", U8, dflt="7"), field("b", BOOL, dflt="TRUE"),
@@ -792,7 +799,7 @@ def rnd_struct(rng, depth, typenames, kind):
                 k = t["k"]
                 if k == "bool":
                     f["def"] = rng.choice(["TRUE", "FALSE"])
-                elif k == "int" and not t.get("named"):
+                elif k == "int":
                     lo = t.get("lo") if t.get("lo") is not None else 0
                     f["def"] = str(lo)
                 elif k == "enum" and t.get("items"):
